@@ -38,6 +38,10 @@ def midi_vocabulary(whole_ticks_only=False):
     vs = [v for v in vs if not ambiguous(v) and ticks_of(v) >= 1]
     if whole_ticks_only:
         vs = [v for v in vs if (v.length * 288).denominator == 1]
+    # values outside the dotted / tuplet vocabulary that still last a whole number of ticks: 288/k as a float, and vocabulary
+    # values tied together with value.add
+    vs += [MU.Val("ticks", k) for k in (1, 3, 5, 7, 9, 11, 13, 17, 23, 31, 35, 41, 47, 55, 77, 91, 101, 119, 143, 239)]
+    vs += [MU.Val("tied", ([a, 0, 1, 1], [b, 0, 1, 1])) for (a, b) in ((3, 12), (3, 2), (4, 12), (6, 4), (8, 12), (2, 8), (16, 6), (12, 24))]
     return vs
 
 
